@@ -288,4 +288,5 @@ def main(tier):
                         "names state units (R4 seeds)"]
     from ..rules import siblings
     siblings.check_offset_rounding(run, fx)
+    siblings.check_day_carry(run, fx)
     return run.finish(EXPLANATION)
